@@ -10,7 +10,7 @@ from .runner import Result, Draw
 from .accmodel import Model as BreakModel
 
 COMMANDS = ('help', 'list', 'filter', 'breakpoint', 'matcher', 'connection', 'resume', 'quit')
-ATOMS = ['wl_display', '.sync', '.bind', 'wl_registry', '.delete_id', 'wl_callback', 'A:', 'B:', 'C:', '.new', '.destroyed', '2', '3', '3a', '2b', 'wl_callback.done',
+ATOMS = ['wl_display', '.sync', '.done', '.commit', '900', 'wl_callback.done', '.bind', 'wl_registry', '.delete_id', 'wl_callback', 'A:', 'B:', 'C:', '.new', '.destroyed', '2', '3', '3a', '2b', 'wl_callback.done',
          '(callback=)', 'wl_*', 'xdg_*', '.get_registry', 'wl_display.delete_id', '(nil)', '.global', 'wl_surface', '.commit', '4', 'B: wl_display']
 MALFORMED = ['(', 'a.b.c', '[x', 'x ! y ! z']
 
@@ -106,6 +106,9 @@ class PluginExec:
                 res.bad('new-connection-name', '%r, model %s' % (news[0], mc['name']))
             if any(session.CLOSED_LINE.match(l) for l in out):
                 res.bad('closed-notice-on-message', repr(out))
+        if self.check_c15 and opened and 'instead of connection' in self.drv.err.buffer[n_err:]:
+            res.bad('thread-warning-on-first-message', 'the first message of a new connection (address %d, thread %d) is reported as being on the wrong thread: %r' % (
+                addr, thread, self.drv.err.buffer[n_err:][:200]))
         if len(self.drv.ctl.all_messages) != nrec + 1:
             res.bad('message-not-processed', 'message on address %d from thread %d was not recorded; err=%r' % (addr, thread, self.drv.err.buffer[n_err:][-200:]))
             return
@@ -181,6 +184,9 @@ class PluginExec:
                 for mc in self.all:
                     if mc['name'].lower() == arg.lower():
                         self.sel = mc['name']
+                        sw = [l for l in self._new_out(n_out) if l.startswith('Switched to connection ')]
+                        if sw != ['Switched to connection ' + mc['name']]:
+                            res.bad('connection-command-selects-other', '`connection %s` answered %r, the connection of that name is %s' % (arg, sw, mc['name']))
                         break
         if cmd == 'quit':
             self.quit = True
@@ -276,7 +282,14 @@ def make_machine(col, stage, tier, check_c10, check_c15, weights):
                 g = histgen.ConnGen(None, d.choice(['client', 'server']), dict(reuse=0.6, weights=weights))
                 self.gens[addr] = g
             self.t += histgen.next_gap(d)
-            m = g.next(d)
+            if g.started and d.chance(0.25 if self.ex.sel is not None else 0.06):
+                # gdb attached late: a message on an object this session never saw being created
+                m = dict(sent=d.chance(0.5), iface=d.choice(['wl_callback', 'wl_surface', 'zz_unknown']), id=900 + d.int(0, 4), name=d.choice(['done', 'commit', 'sync']),
+                         args=[['uint', 7]] if d.chance(0.5) else [])
+                if m['iface'] == 'wl_surface': m['name'], m['args'] = 'commit', []
+                if m['iface'] == 'wl_callback': m['name'], m['args'] = 'done', [['uint', 7]]
+            else:
+                m = g.next(d)
             m['conn'] = None
             m['t_us'] = self.t
             P = histgen.protocols()
@@ -285,6 +298,24 @@ def make_machine(col, stage, tier, check_c10, check_c15, weights):
             # gdb.InferiorThread.name is None for threads the program never named
             spec['thread_name'] = d.choice([None, None, 'main', 'worker-1']) if thread != 1 else d.choice(['main', None])
             self._do(['msg', addr, thread, spec])
+
+        @rule(data=st.data())
+        def app_id_like_a_name(self, data):
+            """an earlier connection announces an app id that reads like a (later) connection's name"""
+            if self.ex is None or self.ex.quit or not check_c10 or not self.gens:
+                return
+            d = Draw(data)
+            addr = min(self.gens)
+            if addr not in self.ex.open:
+                return
+            g = self.gens[addr]
+            self.t += 1000
+            m = g.next(d, 'appid')
+            m['conn'] = None
+            m['t_us'] = self.t
+            P = histgen.protocols()
+            decl = P[m['iface']].msg(m['name']) if m['iface'] in P and not (m['iface'] == 'wl_registry' and m['name'] == 'bind') else None
+            self._do(['msg', addr, 1, gdbsim.closure_of_message(m, g.side, addr, decl)])
 
         @rule(data=st.data())
         def destroy(self, data):
@@ -305,7 +336,7 @@ def make_machine(col, stage, tier, check_c10, check_c15, weights):
             if k == 'breakpoint':
                 word, arg = d.choice(['breakpoint', 'b', 'break', 'wlbreakpoint']), gen_break_text(d)
             elif k == 'connection':
-                word, arg = d.choice(['connection', 'c', 'conn']), d.choice(['A', 'B', 'A', 'B', 'C', 'all', 'a', 'Z', 'Q', 'nope'])
+                word, arg = d.choice(['connection', 'c', 'conn']), d.choice(['A', 'B', 'A', 'B', 'C', 'all', 'a', 'b', 'b', 'b', 'c', 'c', 'B', 'Z', 'Q', 'nope'])
             elif k == 'resume':
                 word, arg = d.choice(['resume', 'r', 'res']), ''
             elif k == 'quit':
